@@ -82,7 +82,17 @@ PROPERTIES = {
                 "file (transmit faults / deadlines interleaved with scripted reads; the file must see SetWriteDeadline and "
                 "Write only), the real Dial(\"udp\") multicast transceiver, real Dial(\"tcp\") and Dial(\"unix\") "
                 "connections to an echoing loopback peer: every frame sent comes back decoded, and a transmit deadline that "
-                "has passed does not end reception.",
+                "has passed does not end reception. PACKET connections (G lines): a scripted packet reader (and the real "
+                "udp transceiver) hands out one datagram per Read and discards what does not fit the slice it was offered; "
+                "Socketcan/ScanBuffer.v models the geometry of bufio.Scanner's buffer (start, end, len; shift/grow before a "
+                "Read) and C07_scan_offers_room / C07_every_read_is_offered_room prove that the receiver's scanner keeps its "
+                "4096-byte buffer and offers EVERY Read at least 2033 bytes, so datagrams of up to 127 frames are never "
+                "truncated and the stream theorems apply to the concatenation of the datagrams. The harness logs len(p) of "
+                "every Read; the driver runs the extracted geometry model next to it, flags a Read that was offered less room "
+                "than the model says and thereby lost bytes of its datagram (clause frames-lost-to-a-short-read-buffer), and "
+                "compares the frames with those of the datagrams cut to the room the MODEL offers (datagrams of 1..64 "
+                "frames, alone / after an 8-byte fragment / in sequences, arbitrary odd sizes, empty datagrams, and "
+                "datagrams of 2032..5000 bytes after 0..200 frames, where the model must predict the cut exactly).",
         "note": _NOTE + "bufio.Scanner is modelled, not verified (oracle, DESIGN.md section 3): buffer shifting/doubling is "
                         "abstracted as re-segmentation of reads, a reader violating 0 <= n <= len(p) is not modelled. "
                         "TransmitFrame discards the byte count returned by Write: model = code, so a Write answering "
@@ -104,7 +114,10 @@ PROPERTIES = {
                         "the claim checked is transparency with respect to the Receiver/Transmitter models. The shared-"
                         "connection scenarios never transmit without a deadline after a call with one (TransmitFrame leaves "
                         "the connection's write deadline set; see the report), and a scenario whose short-deadline call was "
-                        "itself overtaken by its deadline (process stall) is dropped.",
+                        "itself overtaken by its deadline (process stall) is dropped. The buffer-geometry model "
+                        "(ScanBuffer.v) is a separate small model of scan.go:193-234, not derived from Receiver.v's scanner "
+                        "(which abstracts the buffer as a list): it is tied to the code by the G lines only, where len(p) of "
+                        "every Read must be at least - and for oversize datagrams behaves exactly as - what the model offers.",
         "technique": "Coq proof (induction over read results) about a Gallina model + differential correspondence under "
                      "scripted segmentations and fault injection",
         "design_ref": "5.7",
@@ -144,7 +157,9 @@ RULES = {
            "script and all error-injection scripts again through the real fileConn over the scripted file (every second "
            "error as *os.PathError); XF lines = every 3rd X sequence through fileConn; U lines = Transmitter + Receiver on "
            "one connection: 600 fileConn/duplex-file schedules, 10 each on real udp / tcp / unix connections with deadlines "
-           "a few ms ahead that are allowed to pass before reception continues. "
+           "a few ms ahead that are allowed to pass before reception continues; G lines = packet connections: 192 "
+           "datagram scripts of 1..64 frames, 300 streams cut into datagrams of arbitrary sizes (with empty datagrams), 63 "
+           "oversize scripts (2032..5000 bytes after 0..200 frames), 12 scripts on the real udp transceiver. "
            "non-trivial = at least one complete frame or a non-nil terminating error; distinct by line hash",
 }
 
